@@ -219,7 +219,7 @@ pub fn eval_case(case: &Case, st: &mut Stats) -> Vec<Fail> {
             // for an attribute without namespace that is called xmlns: XML has no spelling for them as such.
             fn inexpressible(a: &A) -> bool {
                 (a.k == K::Elem && a.ns.is_empty() && a.nss.iter().any(|d| d.name.is_empty() && !d.ns.is_empty()))
-                    || a.nss.iter().any(|d| d.name == "xmlns" || (d.name == "xml" && d.ns != XML_NS))
+                    || a.nss.iter().any(|d| d.name == "xmlns" || (d.name == "xml") != (d.ns == XML_NS))
                     || a.attrs.iter().any(|x| x.ns.is_empty() && x.name == "xmlns")
                     || a.ch.iter().any(inexpressible)
             }
